@@ -106,6 +106,8 @@ def case_task(task):
                                       [None if f.parent[i] is None else keep.index(f.parent[i]) for i in keep])
                     gen.build_tree(sub, data)
                     part.count("warm_up_forests")
+                    if G >= 1000:
+                        part.count("warm_up_forests_fft_path")
             tree, names = gen.build_tree(f, data, child_order_rng=rng if c.get("shuffle") else None,
                                          order=f.postorder(reverse_siblings=True) if c["id"] % 3 == 1 else None,
                                          incremental_rng=rng if c.get("incremental") else None)
@@ -167,6 +169,9 @@ def case_task(task):
             part.count("entries_checked", total)
             part.count("entries_in_narrow_band", narrow)
             part.count("interval_cases")
+            if c.get("many_clones"):
+                part.count("cases_with_more_than_256_clones")
+                part.count("narrow_band_entries_in_big_trees", narrow)
             if iv.fft:
                 part.count("fft_path_cases")
             part.maxi("max_children", max([len(f.children(i)) for i in range(f.K)] + [len(f.tops())]))
@@ -216,10 +221,17 @@ def run(ctx):
                       "D": 1 + i % 4, "kind": ["flat", "moderate", "smooth", "peaked", "binom", "emission", "scales", "twins"][i % 8],
                       "shuffle": bool(i % 2), "warm": bool(i % 3 == 0), "incremental": bool(i % 5 in (1, 3))})
         cid += 1
-    n_big = 12 if quick else 600
+    n_big = 24 if quick else 600
     for i in range(n_big):
         n = int(rng.integers(2, 7))
-        f = gen.random_forest(rng, n, max_children=4, shape=[None, "star", "bushy"][i % 3], n_tops=[None, 3][i % 2])
+        if i % 2:
+            # warm cases: at least three top-level clones, so that pairs of them are evaluated first and the whole
+            # forest afterwards meets their cached pairwise results
+            n = int(rng.integers(4, 7))
+            f = gen.random_forest(rng, n, max_children=4, shape=[None, "star", "bushy"][i % 3], n_tops=[3, 4][(i // 2) % 2],
+                                  min_clones=[3, 4][(i // 2) % 2])
+        else:
+            f = gen.random_forest(rng, n, max_children=4, shape=[None, "star", "bushy"][i % 3], n_tops=None)
         cases.append({"id": cid, "mode": "interval", "forest": f.describe(), "G": [999, 1000, 1001, 1201, 501][i % 5],
                       "D": [1, 2, 3][(i // 5 + i) % 3], "kind": ["moderate", "smooth", "peaked", "emission"][(i // 4) % 4], "shuffle": False,
                       "warm": bool(i % 2)})
@@ -231,13 +243,25 @@ def run(ctx):
         cases.append({"id": cid, "mode": "interval", "forest": f.describe(), "G": [101, 201][i % 2], "D": [10, 12, 6][i % 3],
                       "kind": ["peaked", "binom", "smooth"][i % 3], "shuffle": False, "warm": bool(i % 2)})
         cid += 1
-    big = [c for c in cases if c["G"] >= 500 or c["D"] >= 6]
-    small = [c for c in cases if not (c["G"] >= 500 or c["D"] >= 6)]
+    # trees with more than 256 clones / more than 256 siblings (sizes beyond one byte)
+    for i in range(6 if quick else 60):
+        n = int(rng.integers(280, 330))
+        wide = i % 3 == 2
+        f = gen.random_forest(rng, n, max_children=300 if wide else [8, 2][i % 2], shape="star" if wide else [None, "chain", "bushy"][i % 3],
+                              n_tops=[1, 3, 40][i % 3], min_clones=258)
+        cases.append({"id": cid, "mode": "interval", "forest": f.describe(), "G": [3, 5, 11][i % 3], "D": 1 + i % 2,
+                      "kind": "flat" if wide else ["smooth", "moderate", "twins", "scales"][i % 4], "shuffle": bool(i % 2),
+                      "warm": False, "incremental": bool(i % 2), "many_clones": True})
+        cid += 1
+    big = [c for c in cases if c["G"] >= 500 or c["D"] >= 6 or c.get("many_clones")]
+    small = [c for c in cases if not (c["G"] >= 500 or c["D"] >= 6 or c.get("many_clones"))]
     tasks = [{"seed": ctx.seed, "cases": [c]} for c in big]
     for i in range(0, len(small), 40):
         tasks.append({"seed": ctx.seed, "cases": small[i:i + 40]})
     ctx.map("checks.c02", "case_task", tasks, timeout=3000)
     if ctx.counters.get("brute_force_cases", 0) < 50 or ctx.counters.get("interval_cases", 0) < 100:
         ctx.inconc("too few cases evaluated")
+    if ctx.counters.get("warm_up_forests_fft_path", 0) < 12:
+        ctx.inconc("too few warm-up evaluations on the FFT path")
     if ctx.counters.get("fft_path_cases", 0) < 3:
         ctx.inconc("FFT path not reached")
